@@ -1,6 +1,7 @@
 package scen
 
 import (
+	"bufio"
 	"bytes"
 	"fmt"
 	"hash/fnv"
@@ -249,6 +250,28 @@ func (c08) Run(c *core.Case, env *core.Env) {
 		failed := false
 		decodes := 0
 		for _, k := range cuts {
+			// the readers the library itself hands to the decoders: a
+			// bytes.Buffer / bytes.Reader holding exactly what arrived
+			for _, rk := range []string{"bytes.Buffer", "bytes.Reader", "bufio.Reader"} {
+				var rd io.Reader
+				switch rk {
+				case "bytes.Buffer":
+					rd = bytes.NewBuffer(append([]byte(nil), enc[:k]...))
+				case "bytes.Reader":
+					rd = bytes.NewReader(enc[:k])
+				default:
+					rd = bufio.NewReader(bytes.NewReader(enc[:k]))
+				}
+				decodes++
+				if e := dec(rd); e == nil {
+					env.Violate("accepted/"+op.Kind, "%s: the prefix of %d of %d bytes (held in a %s) decoded without error\n encoding %x", desc, k, L, rk, head(enc, 120))
+					failed = true
+					break
+				}
+			}
+			if failed {
+				break
+			}
 			for _, end := range c08endings {
 				for _, frag := range []string{"greedy", "random"} {
 					if end.withEnd && k == 0 {
